@@ -145,6 +145,9 @@ def run(repo, chk):
            "a name bound in the body is labelled 'body' only if nothing was recorded for it before: a parameter that the body rebinds (x = x + 1, for y in ...) stays 'argument', "
            "as in Python's symbol table (is_parameter)" + (f" -- overwritten by {over}" if over else f" ({soft} non-overwriting labellings)"))
 
+    from .shared import per_instance_state_obligations
+    per_instance_state_obligations(repo, chk, "R10.4", [f"transform.{col.cls.name}", "transform.PteraTransformer"])
+
     # ---------------- R10.5
     from .shared import closure_reference_obligations
     closure_reference_obligations(repo, chk, "R10.5")
